@@ -330,6 +330,8 @@ class Executor(object):
             if name:
                 path.ghosts['w:' + name] = w
             return S[w]
+        if sv.ty in ('reflist', 'refset'):
+            return hp.nonemptyR(path.heap['refsets'][sv.t])
         if sv.ty == 'none':
             return z3.BoolVal(False)
         if sv.ty == 'int':
@@ -370,6 +372,8 @@ class Executor(object):
             return Coll('ref', h[comp][ref], True, src=(comp, ref), elem_ty='bnode')
         if sv.ty == 'reflist':
             return Coll('ref', h['refsets'][sv.t], False, src=('refsets', sv.t), elem_ty=sv.x)
+        if sv.ty == 'refset':
+            return Coll('ref', h['refsets'][sv.t], True, src=('refsets', sv.t), elem_ty='bnode')
         raise Unsupported('cannot %s a value of type %s' % (what, sv.ty))
 
     # -- expression evaluation -------------------------------------------------
@@ -414,6 +418,13 @@ class Executor(object):
             return SV('fseq', r)
         if not vs:
             return SV('clist', None, [])
+        if self.k.hints.get('list_kind') == 'reflist' and all(v.ty == 'bnode' for v in vs):
+            r, h = path.heap.new()
+            S = z3.K(I, z3.BoolVal(False))
+            for v in vs:
+                S = z3.Store(S, v.t, True)
+            path.heap = h.with_(refsets=z3.Store(h['refsets'], r, S), b_node=z3.Store(h['b_node'], r, z3.BoolVal(False)))
+            return SV('reflist', r, 'bnode')
         return SV('clist', None, vs)
 
     def ev_JoinedStr(self, e, path):
@@ -485,6 +496,10 @@ class Executor(object):
             raise Unsupported('membership in optional value')
         if a.ty == 'str' and a.t is not None:
             a = SV('H', a.t)
+        if a.ty in hp.REF_TYPES and b.ty in ('refset', 'reflist'):
+            return h['refsets'][b.t][a.t]
+        if a.ty in hp.REF_TYPES and b.ty == 'opt' and b.x[1].ty == 'refset':
+            raise Unsupported('membership in optional value')
         if b.ty == 'constset' and a.ty == 'bool':
             return z3.Or([a.t == z3.BoolVal(bool(v)) for v in b.x if v in (0, 1)] or [z3.BoolVal(False)])
         if a.ty == 'H':
@@ -678,6 +693,11 @@ class Executor(object):
         elif coll.kind == 'H':
             a = hp.fresh('a!c', H)
             self.bind_target(g.target, SV('H', a), sub)
+            elem_in = coll.mem[a]
+            bound = [a]
+        elif coll.kind == 'ref':
+            a = hp.fresh('a!c', I)
+            self.bind_target(g.target, SV(coll.elem_ty or 'bnode', a), sub)
             elem_in = coll.mem[a]
             bound = [a]
         else:
